@@ -681,6 +681,7 @@ pub struct ATrace {
     pub pendings: usize,
     pub end_reads: usize,
     pub split_sizes: Vec<usize>,
+    pub failures: Vec<(usize, u64)>,
 }
 
 /// Drives `TagIteratorAsync::next()` (use_stream = false) or the `into_stream()` adapter.
@@ -772,7 +773,7 @@ pub fn run_async_t<T: Spec>(input: &Arc<Vec<u8>>, buffered: &[u64], script: &ASc
         evs.push(Ev::Panic(panic_msg(p)));
     }
     let s = src.borrow();
-    ATrace { evs, exec_error, polls, reads: s.reads, pendings: s.pendings, end_reads: s.end_reads, split_sizes: s.split_sizes.clone() }
+    ATrace { evs, exec_error, polls, reads: s.reads, pendings: s.pendings, end_reads: s.end_reads, split_sizes: s.split_sizes.clone(), failures: s.failures.clone() }
 }
 
 pub fn run_async(spec: &SpecTable, input: &Arc<Vec<u8>>, buffered: &[u64], script: &AScript, use_stream: bool, max_items: usize) -> ATrace {
